@@ -73,6 +73,23 @@ MUT = {
                         "int64_t disp = (int64_t) ((uintptr_t) to - (uintptr_t) thunk) - 5; /* harmless */"),
         'h_get_ref': ('mir-gen.c', '  return (uint64_t) ref_op->u.ref->addr;\n}',
                       '  { MIR_item_t it = ref_op->u.ref; void *a = it->addr; return (uint64_t) a; } /* harmless */\n}'),
+        # ---- round 3: argument locations at calls through public addresses ----
+        # _MIR_get_ff_call: an SSE class block needs one register more than it has eightbytes
+        'ff_sse_blk_lt': ('mir-x86_64.c', 'type == MIR_T_BLK + 2 && n_xregs + qwords <= max_xregs', 'type == MIR_T_BLK + 2 && n_xregs + qwords < max_xregs'),
+        # target_machinize: a 16-byte SSE class block is taken from registers when only xmm7 is left
+        'gen_callee_sse_blk': ('mir-gen-x86_64.c', '''            && (blk_size <= 8 || get_fp_arg_reg (fp_arg_num + 1) != MIR_NON_VAR))) {''',
+                               '''            && (blk_size <= 8 || get_fp_arg_reg (fp_arg_num) != MIR_NON_VAR))) {'''),
+        # machinize_call: a long double on the stack is 8-byte aligned only
+        'gen_call_ld_align': ('mir-gen-x86_64.c', '        arg_stack_size = (arg_stack_size + 15) / 16 * 16;', '        arg_stack_size = (arg_stack_size + 7) / 8 * 8;'),
+        # va_block_arg_builtin: mixed-class block taken from registers when all six integer registers are used
+        'shim_mixed_gp': ('mir-x86_64.c', 'if (va->fp_offset > 160 || va->gp_offset > 40) break;', 'if (va->fp_offset > 160 || va->gp_offset > 48) break;'),
+        # va_block_arg_builtin: a stack block advances the overflow area by the unrounded size
+        'shim_overflow_unrounded': ('mir-x86_64.c', '  va->overflow_arg_area += size / 8;', '  va->overflow_arg_area += s / 8;'),
+        # seeded C03-x1
+        'shim_sse_blk_size': ('mir-x86_64.c', 'if (va->fp_offset + size * 2 > 176) break;', 'if (va->fp_offset + size > 176) break;'),
+        # the same test written with register counts
+        'h_shim_sse_regs': ('mir-x86_64.c', 'if (va->fp_offset + size * 2 > 176) break;',
+                            'if ((va->fp_offset - 48) / 16 + size / 8 > 8) break; /* harmless */'),
     },
     'C16': {
         'restore_keeps_vars': ('mir.c', 'while (VARR_LENGTH (MIR_var_t, func->vars) > func->original_vars_num) {',
